@@ -1,5 +1,6 @@
 import PikaVerif.Lemmas.Elastic
 import PikaVerif.Lemmas.ElasticGen
+import PikaVerif.Lemmas.ElasticRefuse
 import PikaVerif.Props.C01
 /-!
 # C19 — suspending and resuming pools or workers never loses work
@@ -29,10 +30,6 @@ def Reachable (cfg : Cfg) (s : St) : Prop := ∃ log, runLog step (init cfg) log
 theorem inv_of_reachable {cfg : Cfg} {s : St} (h : Reachable cfg s) : Inv s := by
   obtain ⟨log, hl⟩ := h
   exact inv_of_accepted hl
-
-theorem step_cfg (s s' : St) (e : Ev) (h : step s e = some s') : s'.cfg = s.cfg := by
-  cases e <;> simp only [step] at h <;> (repeat' split at h) <;>
-    first | (simp at h; done) | (simp only [Option.some.injEq] at h; subst h; rfl)
 
 theorem cfg_of_reachable {cfg : Cfg} {s : St} (h : Reachable cfg s) : s.cfg = cfg := by
   obtain ⟨log, hl⟩ := h
@@ -219,6 +216,26 @@ theorem C19_refused_leaves_running (cfg : Cfg) (s : St) (hr : Reachable cfg s)
     · rename_i hg; exact hg.1
     · simp at h
 
+/-- **A refused call changes nothing, for the whole window until it returns.**  From a reachable
+    state of the fixed tree in which actor `a` has just been refused (and, being at the entry of the
+    API function, holds no pu mutex for a suspension), after *any* accepted continuation that does
+    not contain `a`'s return, the model accepts from `a` none of the three steps by which a
+    suspender can act on a worker: taking the pu mutex for a suspension, the locked CAS and the
+    pool suspend's unlocked CAS.  Hence no worker state is ever changed on behalf of a refused call. -/
+theorem C19_refused_window (cfg : Cfg) (s s' : St) (hr : Reachable cfg s) (hc : cfg.refuseReturns = true)
+    (a : Nat) (ha : s.apc a = .refused) (hn : NoSusp s a) (log : List Ev)
+    (h : runLog step s log = some s') (hnot : Ev.ret a ∉ log) (w b af : Nat) :
+    step s' (.slock a w) = none ∧ step s' (.cas a w b af) = none ∧ step s' (.ucas a w b af) = none := by
+  have hcfg := cfg_of_reachable hr
+  obtain ⟨ha', hn', hc'⟩ := refused_log a log s s' (by rw [hcfg]; exact hc) ha hn h hnot
+  have hm : mayAct s' a = false := by simp [mayAct, ha', hc']
+  refine ⟨?_, ?_, ?_⟩
+  · simp [step, hm]
+  · have := hn' w
+    simp [step, this]
+  · simp [step, hm]
+
+
 /-- every state change of a worker by a suspender goes through `running → pre_sleep`: a suspender
     never touches a worker that is not running, and never writes anything but `pre_sleep` -/
 theorem C19_suspender_only_requests (s s' : St) (a w b af : Nat)
@@ -292,5 +309,12 @@ example : ∃ s, runLog step (init cfg2)
      .chk 0 rsPreSleep true, .sleep 0, .sel 7 0 rsSleeping rsSleeping true true, .inc 7 0, .unl 7 0] = some s ∧
     (s.wk 0).q = 1 ∧ (s.wk 0).late = 1 ∧ (s.wk 0).st = rsSleeping := by
   refine ⟨_, rfl, ?_, ?_, ?_⟩ <;> decide
+
+/-- a state satisfying the hypotheses of `C19_refused_window` -/
+example : ∃ s, runLog step (init cfg2) [.start 1 0 0, .refuse 9] = some s ∧ s.apc 9 = .refused ∧ NoSusp s 9 := by
+  refine ⟨_, rfl, by decide, ?_⟩
+  intro w
+  simp only [init, upd]
+  split <;> simp
 
 end PikaVerif.C19
